@@ -448,23 +448,26 @@ func oracle(c *Case, res *runResult) ([]*evid.Violation, *stats) {
 			}
 		}
 	}
-	// ---- log output
+	// ---- log output (as written, and with JSON / quoting escapes undone)
+	logText := res.log
+	if unesc := strings.NewReplacer(`\u0026`, "&", `\u003c`, "<", `\u003e`, ">", `\"`, `"`, `\\`, `\`).Replace(res.log); unesc != res.log {
+		logText += "\n" + unesc
+	}
 	for si := range secrets {
 		s := &secrets[si]
 		if s.Kind == "user" {
 			continue // user names are logged on purpose ("Loading config ... user=")
 		}
 		for _, f := range s.Forms {
-			if strings.Contains(res.log, f) {
-				i := strings.Index(res.log, f)
-				lo, hi := i-160, i+len(f)+40
+			if i := strings.Index(logText, f); i >= 0 {
+				lo, hi := i-200, i+len(f)+40
 				if lo < 0 {
 					lo = 0
 				}
-				if hi > len(res.log) {
-					hi = len(res.log)
+				if hi > len(logText) {
+					hi = len(logText)
 				}
-				addV(evid.V("secret-in-log-"+s.Kind, "the %s of host %d appears in log output: …%s…", s.Kind, s.Owner, res.log[lo:hi]))
+				addV(evid.V("secret-in-log-"+s.Kind, "the %s of host %d appears in the log output (%s): …%s…", s.Kind, s.Owner, c.LogVia, logText[lo:hi]))
 				break
 			}
 		}
@@ -620,6 +623,7 @@ func caseClasses(c *Case, res *runResult, st *stats) []string {
 	if len(c.Decoys) > 0 {
 		add("docker-rejected-keys")
 	}
+	add("log:" + map[string]string{"": "slog-text", "json": "slog-json", "logrus": "logrus-text", "logrus-json": "logrus-json"}[c.LogVia])
 	if c.Special {
 		add("password:special-characters")
 	}
